@@ -48,7 +48,7 @@ type lkCircuit struct {
 	Entries []frontend.Variable
 	Idx     []frontend.Variable
 	Exp     []frontend.Variable `gnark:",public"`
-	split   int // number of queries in the first Lookup call (the rest in a second call)
+	split   int                 // number of queries in the first Lookup call (the rest in a second call)
 }
 
 func (c *lkCircuit) Define(api frontend.API) error {
@@ -118,6 +118,26 @@ func (c *mcCircuit) Define(api frontend.API) error {
 		r := t.Lookup(0)
 		api.AssertIsEqual(r[0], c.X[0])
 	}
+	return nil
+}
+
+// a gadget that creates its range checker first and issues its checks only from deferred callbacks registered
+// afterwards (constructor-style use): every such check must either be enforced or refused at compile time
+type lateRcCircuit struct {
+	X     frontend.Variable
+	width int
+	early bool // one check issued directly in Define as well
+}
+
+func (c *lateRcCircuit) Define(api frontend.API) error {
+	rc := rangecheck.New(api)
+	if c.early {
+		rc.Check(api.Add(c.X, 0), 64)
+	}
+	api.Compiler().Defer(func(api frontend.API) error {
+		rc.Check(c.X, c.width)
+		return nil
+	})
 	return nil
 }
 
@@ -936,6 +956,32 @@ func runC13(args []string) int {
 		w, _ := frontend.NewWitness(a, bnQ)
 		if obs := SolveCapture(ccs, w, 1); obs.Class != "ok" {
 			rep.Fail("c13:lookup-rejects-valid:mixed-table", obs.Class+" "+obs.Msg, desc)
+		}
+	}
+	// ---- checks issued after the checker was created, from deferred callbacks
+	for _, mode := range []string{"r1cs", "scs"} {
+		for _, early := range []bool{false, true} {
+			desc := c13Desc{Kind: "late-check", Mode: mode, Widths: []int{8}, Detail: fmt.Sprintf("early=%v", early)}
+			var ccs constraint.ConstraintSystem
+			var cerr error
+			pmsg := catchPanic(func() { ccs, cerr = c13Compile(mode, &lateRcCircuit{width: 8, early: early}) })
+			rep.Eval(fmt.Sprintf("late-check|%s|%v", mode, early), true)
+			if pmsg != "" || cerr != nil {
+				rep.Count("late-check:refused-at-compile-time")
+				continue // refused: nothing is silently dropped
+			}
+			for _, x := range []int64{200, 255, 256, 300, 70000} {
+				w, _ := frontend.NewWitness(&lateRcCircuit{X: x}, bnQ)
+				obs := SolveCapture(ccs, w, 1)
+				rep.Count("late-check:" + obs.Class)
+				if x >= 256 && obs.Class == "ok" {
+					desc.Values = []*big.Int{big.NewInt(x)}
+					rep.Fail("c13:accepts-out-of-range:late-check", fmt.Sprintf("a range check issued from a deferred callback after rangecheck.New was accepted at compile time but is not enforced: %d passes an 8-bit check", x), desc)
+				}
+				if x < 256 && obs.Class != "ok" && obs.Class != "panic" {
+					rep.Fail("c13:rejects-in-range:late-check", fmt.Sprintf("%d rejected by an 8-bit check: %s", x, obs.Msg), desc)
+				}
+			}
 		}
 	}
 	hdr := "From Coq Require Import ZArith List Bool.\nFrom GnarkV Require Import Std.Emulated Std.RangeCheck Std.RangeCheckCases.\nImport ListNotations.\n"
